@@ -248,8 +248,13 @@ int main(int argc, char** argv)
     std::string last_sig, last_msg, last_decoded;
     uint64_t ran = 0;
     auto tapeGen = rc::gen::scale(scale, rc::gen::container<std::vector<uint32_t>>(rc::gen::arbitrary<uint32_t>()));
+    std::chrono::steady_clock::time_point shrink_deadline;
+    const double shrink_seconds = double(opt_int("shrink_seconds", 25));
     bool ok = rc::check(g_prop, [&]() {
         std::vector<uint32_t> tape = *tapeGen;
+        // bounded shrinking: once the budget is used up every further shrink candidate "passes" without being run,
+        // so rapidcheck settles on the smallest failing tape found so far
+        if (rep.frozen && std::chrono::steady_clock::now() > shrink_deadline) return;
         g_current_tape = tape;
         Tape t(tape);
         rep.decoded.clear();
@@ -258,6 +263,8 @@ int main(int argc, char** argv)
         if (!rep.frozen && !rep.decoded.empty()) rep.sample("generated_case", rep.decoded.substr(0, 600), 3);
         if (!r)
         {
+            if (!rep.frozen)
+                shrink_deadline = std::chrono::steady_clock::now() + std::chrono::milliseconds(int64_t(shrink_seconds * 1000));
             rep.frozen = true;
             last_fail = tape;
             last_sig = rep.failure_sig;
